@@ -63,3 +63,16 @@ def int_or_none(s):
 def seq_filter_map(lst, pred, proj):
     """[proj(x) for x in lst if pred(x)]  (a monoid homomorphism on lists)"""
     return [proj(x) for x in lst if pred(x)]
+
+
+def seq_fold(lst, step, init):
+    """left fold: step(...step(step(init, lst[0]), lst[1])..., lst[-1])"""
+    s = init
+    for x in lst:
+        s = step(s, x)
+    return s
+
+
+def seg_val(seg):
+    """the current value of a (mutable) segment object, as logged by the output model"""
+    return seg
